@@ -5,7 +5,7 @@ CONSTANTS
   MaxBody = 1
   Depth = 1
   SiteKinds = {"plain", "call", "ident"}
-  ItemKinds = {"assign", "fn", "arrow", "fnparam", "classfield", "block", "userdecl"}
+  ItemKinds = {"assign", "fn", "arrow", "fnparam", "classfield", "block", "userdecl", "arrowparam"}
 INIT Init
 NEXT Next
 VIEW view
